@@ -242,7 +242,8 @@ func codecs(c *hl.Ctx) {
 		lo := build(o).(*amf0.Object)
 		// connect (transaction id fixed at 1) with and without args
 		for ai := -1; ai < len(objs); ai++ {
-			if ai >= 0 && (oi+ai)%7 != 0 && !c.Thorough() {
+			// quick: one pair in seven; thorough: every pair of trees of up to 3 nodes, one pair in seven where a 4-node tree is involved
+			if ai >= 0 && (oi+ai)%7 != 0 && !(c.Thorough() && o.Nodes() <= 3 && objs[ai].Nodes() <= 3) {
 				continue
 			}
 			p := rtmp.NewConnectAppPacket()
@@ -315,8 +316,17 @@ func codecs(c *hl.Ctx) {
 			}
 			// generic call with and without args (args: every value tree)
 			for ai := -1; ai < len(anys); ai++ {
-				if ai >= 0 && tid != 2 && !c.Thorough() {
-					continue
+				// quick: every argument tree with transaction id 2; thorough: additionally every id for trees of up to 3 nodes; where
+				// a 4-node tree is involved one pair in seven
+				if ai >= 0 {
+					small := v.Nodes() <= 3 && anys[ai].Nodes() <= 3
+					if c.Thorough() {
+						if !small && (tid != 2 || (vi+ai)%7 != 0) {
+							continue
+						}
+					} else if tid != 2 {
+						continue
+					}
 				}
 				cp := rtmp.NewCallPacket()
 				cp.CommandName, cp.TransactionID, cp.CommandObject = "onStatus", amf0.Number(tid), build(v)
@@ -774,7 +784,7 @@ func retention(c *hl.Ctx) {
 
 func run(c *hl.Ctx) {
 	retention(c)
-	c.Rule("(a) codec sweep: every packet constructor x field alphabets (all 65536 user-control event types x 7 data x extra; uint32 boundary values, every byte-lane value in thorough; all 256 limit types; AMF0 object/value trees <= 3 nodes (thorough 4) as command object/arguments; transaction ids {1,2,3,1e9,2.5,0}; strings of length {0,1,255,256,65535}) checked for len==Size, reference bytes, unmarshal/re-marshal identity and field equality; (b) every request/response history of length <= D over 14 operations (requests with tids {1,2,3}, responses for tids {1,2,3} incl. unsolicited and repeated ones, other commands, control packets, server-side onStatus) on two real endpoints, against a reference outstanding-request map; (c) typed waits behind every filler sequence of length <= 3 over 5 filler packets; (d) ExpectMessage with no type and with every ordered selection of 1..3 distinct types from {audio, video, AMF0 data, AMF0 command, user control, set chunk size, AMF3 data (never arrives)} against every arrival order of length <= L (quick 4, thorough 5) over {user control, window ack size, set peer bandwidth, set chunk size 16+i, onStatus command, audio, video, data message}, the call repeated until it fails, against a cursor model: the wait returns the first arrival at or after the cursor whose type is requested (type and payload equal, every payload carries its position), everything before it is skipped, nothing behind it is consumed, and it fails when none is left; (e) ExpectPacket for each of the 11 packet types and for the Packet interface against every arrival order of length <= L (quick 4, thorough 5) over the 11 packets the library constructs (4 control, onStatus, publish, connect, createStream, play, connect response, createStream response) with connect(1) and createStream(2) outstanding, same cursor model plus the outstanding-request map (a skipped response is consumed; a second response for an answered request makes the wait fail). A (d)/(e) case is non-trivial when at least one wait returned a message. (f) control-message sequences on ONE decoding Protocol: every sequence of length 1..L (quick 3, thorough 4 over all 18 kinds and 5 over the first 8) over 18 control-message kinds (user control with event types 0,1,2,3 SetBufferLength with ExtraData,4,5,6,7,0x19,0x1a one-byte,0x1b,0xffff; window acknowledgement size; set peer bandwidth with limit types 0,1,2,255; set chunk size) x 2 value schemes (every position carries its own values: small positive / high bits set) x 9 decode modes (ReadMessage+DecodeMessage per arrival; all reads first, then DecodeMessage in arrival order / in reverse order; ExpectPacket for the Packet interface; ExpectPacket for the type of each arrival; ExpectPacket repeated for one of the 4 control types, the others skipped, to the end of the stream); every returned packet is kept and its exported fields are compared by reflection, field by field, with the fields of the packet sent for that arrival, when it is returned and again after every later read/decode step (a field the wire layout of that event does not carry must be as in the sent packet, i.e. what a fresh Protocol decodes from the same single message, which is checked as the baseline). An (f) case is non-trivial when at least one packet was returned and judged. state = (reference map, dumped transaction table); transition = one operation." + largeRule + mutateRule)
+	c.Rule("(a) codec sweep: every packet constructor x field alphabets (all 65536 user-control event types x 7 data x extra; uint32 boundary values, every byte-lane value in thorough; all 256 limit types; AMF0 object/value trees <= 3 nodes (thorough 4) as command object/arguments - command object x argument pairs: quick one pair in seven for connect and every argument with transaction id 2 for calls, thorough every pair of trees of <= 3 nodes (calls: with every id) and one pair in seven where a 4-node tree is involved; transaction ids {1,2,3,1e9,2.5,0}; strings of length {0,1,255,256,65535}) checked for len==Size, reference bytes, unmarshal/re-marshal identity and field equality; (b) every request/response history of length <= D over 14 operations (requests with tids {1,2,3}, responses for tids {1,2,3} incl. unsolicited and repeated ones, other commands, control packets, server-side onStatus) on two real endpoints, against a reference outstanding-request map; (c) typed waits behind every filler sequence of length <= 3 over 5 filler packets; (d) ExpectMessage with no type and with every ordered selection of 1..3 distinct types from {audio, video, AMF0 data, AMF0 command, user control, set chunk size, AMF3 data (never arrives)} against every arrival order of length <= L (quick 4, thorough 5) over {user control, window ack size, set peer bandwidth, set chunk size 16+i, onStatus command, audio, video, data message}, the call repeated until it fails, against a cursor model: the wait returns the first arrival at or after the cursor whose type is requested (type and payload equal, every payload carries its position), everything before it is skipped, nothing behind it is consumed, and it fails when none is left; (e) ExpectPacket for each of the 11 packet types and for the Packet interface against every arrival order of length <= L (quick 4, thorough 5) over the 11 packets the library constructs (4 control, onStatus, publish, connect, createStream, play, connect response, createStream response) with connect(1) and createStream(2) outstanding, same cursor model plus the outstanding-request map (a skipped response is consumed; a second response for an answered request makes the wait fail). A (d)/(e) case is non-trivial when at least one wait returned a message. (f) control-message sequences on ONE decoding Protocol: every sequence of length 1..L (quick 3, thorough 4 over all 18 kinds and 5 over the first 8) over 18 control-message kinds (user control with event types 0,1,2,3 SetBufferLength with ExtraData,4,5,6,7,0x19,0x1a one-byte,0x1b,0xffff; window acknowledgement size; set peer bandwidth with limit types 0,1,2,255; set chunk size) x 2 value schemes (every position carries its own values: small positive / high bits set) x 9 decode modes (ReadMessage+DecodeMessage per arrival; all reads first, then DecodeMessage in arrival order / in reverse order; ExpectPacket for the Packet interface; ExpectPacket for the type of each arrival; ExpectPacket repeated for one of the 4 control types, the others skipped, to the end of the stream); every returned packet is kept and its exported fields are compared by reflection, field by field, with the fields of the packet sent for that arrival, when it is returned and again after every later read/decode step (a field the wire layout of that event does not carry must be as in the sent packet, i.e. what a fresh Protocol decodes from the same single message, which is checked as the baseline). An (f) case is non-trivial when at least one packet was returned and judged. state = (reference map, dumped transaction table); transition = one operation." + largeRule + mutateRule)
 	c.Assume("strict arrays are outside the tree alphabet here (AMF0 layout is C05/C06's subject)", "two outstanding requests with the same transaction id, transaction ids <= 0 and _error responses are not generated", "fillers are packets the library itself constructs (no Acknowledgement type exists in the library)",
 		"(e): audio, video and data messages are not put in front of ExpectPacket (the statement promises skipping of control and command traffic only); for createStream and play, which DESIGN A.3 lets decode either as a generic call packet or as their own type, the class is taken from the library's DecodeMessage of that single command (judged by part (b)); expected payloads of packets are the library's MarshalBinary (judged by part (a)); waits after a failed wait are not judged",
 		"(f): sent packets are well-formed (ExtraData only with SetBufferLength, one byte of event data with 0x1a, chunk sizes in 1..2^31-1); expected payloads are the fixed layouts of RTMP 1.0 section 5.4/6.2, expected fields are the fields of the packet sent; the outcome of the last ExpectPacket at the end of the stream is part (e)'s subject and not judged here")
